@@ -198,7 +198,28 @@ std::string run_case(Src& s, CaseInfo& ci)
 
   std::vector<bytes> bufs;
   size_t nbuf = s.range(2, 4);
-  for (size_t i = 0; i < nbuf; i++) bufs.push_back(gen_set_buffer(s, gs, 600));
+  std::vector<int64_t> targets;
+  collect_offset_targets(base.cond, targets);
+  for (size_t i = 0; i < nbuf; i++)
+  {
+    bytes B = gen_set_buffer(s, gs, 600);
+    // string instances exactly at the offsets the condition names (and, through the
+    // generic part of the buffer, usually somewhere before them as well)
+    if (!targets.empty() && s.coin(65))
+    {
+      size_t n = s.range(1, 3);
+      for (size_t k = 0; k < n; k++)
+      {
+        int64_t t = targets[s.range(0, targets.size() - 1)] + (int64_t) s.weighted({80, 10, 10}) % 3 - (s.coin(10) ? 1 : 0);
+        if (t < 0)
+          t = 0;
+        place_at(B, (size_t) t, sample_gstr(s, base.strs[s.range(0, base.strs.size() - 1)]));
+      }
+      if (s.coin(40))
+        place_at(B, 0, sample_gstr(s, base.strs[s.range(0, base.strs.size() - 1)]));
+    }
+    bufs.push_back(B);
+  }
   std::vector<uint8_t> table = gen_atom_table(s, base);
 
   std::string src_base = base.text();
